@@ -67,7 +67,7 @@ Proof.
     destruct (get_loc st l) as [len a] eqn:Eg.
     destruct (var_start c <=? a) eqn:Ea.
     + apply Z.leb_le in Ea.
-      assert (Hp := Hok l (or_introl eq_refl)). rewrite Eg in Hp. unfold ptr_ok in Hp. simpl in Hp.
+      assert (Hp := ptr_ok_bound _ _ _ (Hok l (or_introl eq_refl))). rewrite Eg in Hp. simpl in Hp.
       specialize (Hp Ea). unfold retrieve.
       destruct (len =? 0) eqn:El.
       * apply Z.eqb_eq in El. rewrite Hg. eexists. split; [reflexivity|]. split.
@@ -679,14 +679,25 @@ Proof.
     - intros l Hl. apply (valid_loc_same_containers st1); try reflexivity.
       apply (ri_valid _ _ HRI). change (roots (set_tmp st1 x)) with (roots st1) in Hl. rewrite (ri_roots _ _ HRI) in Hl. exact Hl.
     - intros l Hl. change (roots (set_tmp st1 x)) with (roots st1) in Hl. rewrite (ri_roots _ _ HRI) in Hl.
-      change (get_loc (set_tmp st1 x) l) with (get_loc st1 l). unfold ptr_ok. simpl. intros Hv.
-      destruct (Z.lt_ge_cases (snd (get_loc st l)) (var_start c)) as [Hc|Hc].
-      + rewrite (Hlow l Hl Hc) in Hv. lia.
-      + destruct (Hhigh l Hl Hc) as [Hf Hb]. destruct (Z.eq_dec (fst (get_loc st l)) 0) as [Hz|Hnz]; [left; lia|].
-        assert (Hp : 0 < fst (get_loc st l)).
-        { pose proof (inv_roots _ _ HI l Hl Hc) as [H0|(bs & Hl0 & Hz0)]; [contradiction|]. apply Hpos in Hl0. lia. }
-        destruct (Hb Hp) as (bs & Hl0 & _ & Hl1). right. exists bs. split; [exact Hl1|].
-        pose proof (inv_roots _ _ HI l Hl Hc) as [H0|(bs' & Hl0' & Hz0)]; [contradiction|]. congruence.
+      change (get_loc (set_tmp st1 x) l) with (get_loc st1 l). split.
+      + simpl. intros Hv.
+        destruct (Z.lt_ge_cases (snd (get_loc st l)) (var_start c)) as [Hc|Hc].
+        * rewrite (Hlow l Hl Hc) in Hv. lia.
+        * destruct (Hhigh l Hl Hc) as [Hf Hb]. destruct (Z.eq_dec (fst (get_loc st l)) 0) as [Hz|Hnz]; [left; lia|].
+          assert (Hp : 0 < fst (get_loc st l)).
+          { pose proof (ptr_ok_bound _ _ _ (inv_roots _ _ HI l Hl) Hc) as [H0|(bs & Hl0 & Hz0)]; [contradiction|]. apply Hpos in Hl0. lia. }
+          destruct (Hb Hp) as (bs & Hl0 & _ & Hl1). right. exists bs. split; [exact Hl1|].
+          pose proof (ptr_ok_bound _ _ _ (inv_roots _ _ HI l Hl) Hc) as [H0|(bs' & Hl0' & Hz0)]; [contradiction|]. congruence.
+      + intros Hv.
+        destruct (Z.lt_ge_cases (snd (get_loc st l)) (var_start c)) as [Hc|Hc].
+        * rewrite (Hlow l Hl Hc) in *. apply (inv_roots _ _ HI l Hl). exact Hv.
+        * destruct (Hhigh l Hl Hc) as [Hf Hb]. destruct (Z.eq_dec (fst (get_loc st l)) 0) as [Hz|Hnz]; [lia|].
+          assert (Hp : 0 < fst (get_loc st l)).
+          { pose proof (ptr_ok_bound _ _ _ (inv_roots _ _ HI l Hl) Hc) as [H0|(bs & Hl0 & Hz0)]; [contradiction|]. apply Hpos in Hl0. lia. }
+          destruct (Hb Hp) as (bs & Hl0 & _ & Hl1). exfalso.
+          apply (chain_lookup _ _ _ _ _ (ri_chain _ _ HRI)) in Hl1.
+          destruct (inv_low _ _ HI) as (Hs1 & Hs2 & [Hs3|Hs3]); [rewrite Hs3 in Hl0; discriminate|].
+          pose proof (inv_cfg _ _ HI). lia.
     - simpl. rewrite Hsc, Hac. destruct (inv_low _ _ HI) as (H1 & H2 & H3). split; [exact H1|]. split; [exact H2|].
       destruct H3 as [H3|H3]; [|right; lia]. left.
       assert (Hz : stored sorted None = 0).
@@ -696,7 +707,8 @@ Proof.
       replace (top st - 0 + 1) with (top st + 1) in Hch by lia. apply chain_empty in Hch. exact Hch.
     - unfold Jinv. simpl. destruct x as [t'|]; [|exact I]. destruct Hx as [Hx1 Hx2]. split; [exact Hx1|].
       intros l Hl Hj. change (roots (set_tmp st1 (Some t'))) with (roots st1) in Hl. rewrite (ri_roots _ _ HRI) in Hl.
-      apply Hx2; [exact Hl|]. apply (ri_j _ _ HRI). exact Hj. }
+      apply Hx2; [exact Hl|]. apply (ri_j _ _ HRI). exact Hj.
+    - exact (inv_cfg _ _ HI). }
   (* the three outcomes for _temp *)
   assert (Hcollect : collect c st = Ok (match sentinel c st (roots st) (top st) None with
           | None => set_tmp st1 None
